@@ -22,7 +22,7 @@ var sharedInitDone = map[string]bool{}
 var initAllowed = map[string]bool{"strings": true, "unicode": true, "unicode/utf8": true, "strconv": true,
 	"errors": false, "math": true, "math/bits": true, "sort": true, "slices": true, "maps": true, "cmp": true,
 	"internal/stringslite": true, "internal/bytealg": false, "time": true, "unicode/utf16": true,
-	"golang.org/x/exp/constraints": true, "internal/itoa": true}
+	"golang.org/x/exp/constraints": true, "internal/itoa": true, "io": true}
 
 type Machine struct {
 	Prog    *ssa.Program
